@@ -141,13 +141,18 @@ Definition show_chunked (b : list byte) : string :=
   let cs := chunks (S (length b)) b in
   show_nat (length cs) ++ String.concat "" (map (fun c => " " ++ show_hex c) cs).
 
-Definition show_kafka (c : convertor) (km : string * list byte) : string :=
-  " ; " ++ fst km ++ " " ++ show_chunked (snd km) ++ " " ++ consumer c (snd km).
 
-Definition c19_model (cs : c19case) : string :=
+(* structured observation: panic flag, (topic, Kafka message value, consumer-side dump) list *)
+Definition sobs : Type := bool * list (string * list byte * string).
+Definition model_sobs (cs : c19case) : sobs :=
   let '(out, panicked) := publish (cs_conv cs) (cs_topic cs) (cs_msgs cs) in
-  "n=" ++ show_nat (length out) ++ (if panicked then " panic" else "") ++ " x=0" ++
-  String.concat "" (map (show_kafka (cs_conv cs)) out).
+  (panicked, map (fun km => (fst km, snd km, consumer (cs_conv cs) (snd km))) out).
+Definition show_item (it : string * list byte * string) : string :=
+  let '(tp, v, dmp) := it in " ; " ++ tp ++ " " ++ show_chunked v ++ " " ++ dmp.
+Definition show_sobs (so : sobs) : string :=
+  "n=" ++ show_nat (length (snd so)) ++ (if fst so then " panic" else "") ++ " x=0" ++
+  String.concat "" (map show_item (snd so)).
+Definition c19_model (cs : c19case) : string := show_sobs (model_sobs cs).
 
 (* ---------------------------------------------------------------- hypotheses *)
 (* msg_typed / msg_utf8: Model/Kafka.v *)
@@ -223,13 +228,19 @@ Fixpoint all2 {A B} (f : A -> B -> bool) (la : list A) (lb : list B) : bool :=
   | _, _ => false
   end.
 
+(* the property on a structured observation: no panic, one Kafka message per record of the data
+   messages, in order, each on the topic, correctly framed, decoding (model decoder and consumer
+   side) to the record's values and the message header *)
+Definition sobs_ok (cs : c19case) (so : sobs) : bool :=
+  negb (fst so) &&
+  all2 (item_ok (cs_spec cs) (cs_topic cs)) (all_records (cs_msgs cs)) (snd so).
+
 Definition C19_holds_on (cs : c19case) (obs : list string) : bool :=
   if typed_case cs then
     match parse_obs obs with
     | Some (n, panicked, x, items) =>
-        negb panicked && String.eqb x "x=0" &&
-        String.eqb n ("n=" ++ show_nat (length (all_records (cs_msgs cs)))) &&
-        all2 (item_ok (cs_spec cs) (cs_topic cs)) (all_records (cs_msgs cs)) items
+        String.eqb x "x=0" && String.eqb n ("n=" ++ show_nat (length items)) &&
+        sobs_ok cs (panicked, items)
     | None => false
     end
   else true.
